@@ -192,6 +192,18 @@ Section Concrete.
     split; [reflexivity|split; [reflexivity|]]. rewrite (partition t n Hn). apply abs_ids. exact Hok.
   Qed.
 
+  Theorem c_fetch_following_abs D F n : up_closed_b D t = true -> In n (ids t) ->
+    c_fetch_following c D F n = Ok (hd_error (filter (fand D F) (a_following t n))).
+  Proof.
+    intros Hg Hn. pose proof (c_following_abs D F n Hg Hn) as H. unfold c_iterate_following, h_iterate_following in H.
+    unfold c_fetch_following, h_fetch_following, w_fetch_following. cbv zeta in *. rewrite H. reflexivity.
+  Qed.
+  Theorem c_fetch_preceding_abs D F n : In n (ids t) -> c_fetch_preceding c D F n = Ok (hd_error (filter F (a_preceding t n))).
+  Proof.
+    intros Hn. pose proof (c_preceding_abs D F n Hn) as H. unfold c_iterate_preceding, h_iterate_preceding in H.
+    unfold c_fetch_preceding, h_fetch_preceding, w_fetch_preceding. cbv zeta in *. rewrite H. reflexivity.
+  Qed.
+
   (* ---- full_text: the content of the visible text descendants, concatenated in document order ---- *)
   Theorem c_full_text_abs D n : In n (ids t) ->
     c_full_text c D n = Ok (if a_is_text t n then a_text t n else a_text_concat t (filter D (a_descendants t n))).
@@ -214,6 +226,10 @@ Section Concrete.
   Proof. intros Hn. unfold c_traverse_bf, h_traverse_bf. walk traverse_bf_spec. pose proof fu_walk. lia. Qed.
   Theorem c_traverse_df_btt_abs n : In n (ids t) -> c_traverse_df_btt c ftrue ftrue n = Ok (a_df_btt t n).
   Proof. intros Hn. unfold c_traverse_df_btt, h_traverse_df_btt. walk traverse_df_btt_spec. exact fu_ge. Qed.
+
+  (* ---- the sorter: the offered tag nodes, each once, in document order ---- *)
+  Theorem c_sort_abs l : (forall n, In n l -> In n (ids t) /\ h_is_tag h n = true) -> c_sort c ftrue l = Ok (a_doc_sort t l).
+  Proof. intros H. unfold c_sort, h_sort. walk sort_spec. Qed.
 
   (* every routine is a function of the one tree `t` *)
   Theorem c_nav_one_tree D F n : In n (ids t) ->
